@@ -44,6 +44,7 @@ type vfC08Case struct {
 	Glueless bool          // the zone is delegated to a host in provider.test., no glue
 	Partial  bool          // ... next to a host of its own with glue
 	SlowNS   time.Duration // how long provider.test. takes to answer for that host
+	SlowKey  time.Duration // how long the root and test. take to answer DNSKEY questions: validating a referral takes this long while keys are cold
 	Old, New *vfworld.World
 	Steps    []vfC08Step
 }
@@ -110,7 +111,7 @@ func vfC08Specs(c *vfC08Case, version int) []vfworld.ZoneSpec {
 
 func vfC08Gen(rt *rapid.T) *vfC08Case {
 	c := &vfC08Case{Zone: rapid.SampledFrom([]string{"ghost.test.", "ghost.test.", "deep.ghost.test."}).Draw(rt, "zone"),
-		NSTTL:    uint32(rapid.SampledFrom([]int{2, 4, 30, 60, 300, 3600, 90000}).Draw(rt, "nsttl")),
+		NSTTL:    uint32(rapid.SampledFrom([]int{0, 1, 2, 4, 30, 60, 300, 3600, 90000}).Draw(rt, "nsttl")),
 		Signed:   rapid.Bool().Draw(rt, "signed"),
 		Change:   rapid.SampledFrom([]string{"withdraw", "redelegate", "redelegate", "redelegate-insecure"}).Draw(rt, "change"),
 		Prefetch: rapid.SampledFrom([]int{0, 50, 90}).Draw(rt, "prefetch"),
@@ -120,8 +121,9 @@ func vfC08Gen(rt *rapid.T) *vfC08Case {
 		c.Partial = rapid.Bool().Draw(rt, "partialglue")
 		c.SlowNS = time.Duration(rapid.SampledFrom([]int{0, 1500, 3000}).Draw(rt, "slowns")) * time.Millisecond
 	}
+	c.SlowKey = time.Duration(rapid.SampledFrom([]int{0, 0, 1500, 3000}).Draw(rt, "slowkey")) * time.Millisecond
 	if rapid.IntRange(0, 2).Draw(rt, "dsshorter") == 0 {
-		c.DSTTL = uint32(rapid.SampledFrom([]int{20, 45, 120}).Draw(rt, "dsttl"))
+		c.DSTTL = uint32(rapid.SampledFrom([]int{0, 20, 45, 120}).Draw(rt, "dsttl"))
 	}
 	c.Old = vfworld.Build(vfC08Specs(c, 1))
 	c.New = vfworld.Build(vfC08Specs(c, 2))
@@ -202,10 +204,13 @@ func vfC08Run(t *testing.T, dir string, c *vfC08Case) (res vfC08Result) {
 		rw := vfStartResolver(cfg, c.Old)
 		defer rw.Close()
 		lease := c.lease()
-		if c.SlowNS > 0 {
+		if c.SlowNS > 0 || c.SlowKey > 0 {
 			rw.Net.Script = func(p vfworld.Packet, n int, req, resp *dns.Msg, info vfworld.Info) vfworld.Action {
-				if strings.HasSuffix(strings.ToLower(p.Name), ".provider.test.") {
+				if c.SlowNS > 0 && strings.HasSuffix(strings.ToLower(p.Name), ".provider.test.") {
 					return vfworld.Action{Delay: c.SlowNS}
+				}
+				if c.SlowKey > 0 && p.Qtype == dns.TypeDNSKEY && (strings.EqualFold(p.Name, "test.") || p.Name == ".") {
+					return vfworld.Action{Delay: c.SlowKey}
 				}
 				return vfworld.Action{}
 			}
@@ -383,7 +388,7 @@ func TestVerifC08Lease(t *testing.T) {
 		c := vfC08Gen(rt)
 		r := vfC08Run(t, dir, c)
 		if r.Violation != "" {
-			rt.Fatalf("%s\n  zone=%s change=%s nsttl=%d dsttl=%d signed=%v prefetch=%d qmin=%d glueless=%v slow-ns=%s\n  history:\n    %s", r.Violation, c.Zone, c.Change, c.NSTTL, c.DSTTL, c.Signed, c.Prefetch, c.QMin, c.Glueless, c.SlowNS, strings.Join(r.Trace, "\n    "))
+			rt.Fatalf("%s\n  zone=%s change=%s nsttl=%d dsttl=%d signed=%v prefetch=%d qmin=%d glueless=%v slow-ns=%s slow-keys=%s\n  history:\n    %s", r.Violation, c.Zone, c.Change, c.NSTTL, c.DSTTL, c.Signed, c.Prefetch, c.QMin, c.Glueless, c.SlowNS, c.SlowKey, strings.Join(r.Trace, "\n    "))
 		}
 		vfstat.Eval(U, 1)
 		for k, n := range r.Stats {
@@ -410,12 +415,15 @@ func TestVerifC08Lease(t *testing.T) {
 		if c.Signed && c.DSTTL < c.NSTTL {
 			vfstat.Class(U, "ds-ttl-shorter")
 		}
+		if c.SlowKey > 0 && c.lease() < 4*c.SlowKey {
+			vfstat.Class(U, "referral-validation-comparable-to-lease")
+		}
 		if r.Stats["reply-after-lease"] > 0 && r.Stats["reply-within-old-lease"]+r.Stats["ghost-asked-within-lease"] > 0 {
 			var shape []string
 			for _, s := range c.Steps {
 				shape = append(shape, fmt.Sprint(s.Name, s.Qtype, s.Sleep, s.Change, s.CD))
 			}
-			vfstat.NonTrivial(U, fmt.Sprint(c.Zone, c.Change, c.NSTTL, c.DSTTL, c.Signed, c.Prefetch, c.Glueless, c.Partial, c.SlowNS, shape))
+			vfstat.NonTrivial(U, fmt.Sprint(c.Zone, c.Change, c.NSTTL, c.DSTTL, c.Signed, c.Prefetch, c.Glueless, c.Partial, c.SlowNS, c.SlowKey, shape))
 			tr := r.Trace
 			if len(tr) > 14 {
 				tr = tr[:14]
